@@ -8,7 +8,7 @@
    interpreter does not matter beyond the size (for well-formed items), then the invariance. *)
 From AP.Model Require Import Prelude Bytes Vocab Pred Url IriEq Nlv Json Text Equal Coll Dispatch Layout JsonTables JsonLeaf
      JsonEnc JsonTree JsonCheck JsonDec JsonNorm JsonRoundCheck.
-From AP.Proofs Require Import NlvP TextP C01TreeP C01FlatP C01ItemP C01FieldP C01RoundP C01NormP C05FixP.
+From AP.Proofs Require Import NlvP TextP C01TreeP C01FlatP C01ItemP C01FieldP C01LeafP C01RoundP C01NormP C05FixP.
 Local Open Scope nat_scope.
 
 Section Cong.
@@ -35,7 +35,8 @@ Section Cong.
   Qed.
 
   Lemma run_table_cong (T T' : item -> option (option fjv)) fs fs' :
-    (forall R R' path w via term, t_value T R w via term (path_get path fs) = t_value T' R' w via term (path_get path fs')) ->
+    (forall d path w via term, t_value T (t_run_table jw d T) w via term (path_get path fs)
+                               = t_value T' (t_run_table jw d T') w via term (path_get path fs')) ->
     (forall b gs, eval_guards fs b gs = eval_guards fs' b gs) ->
     forall d name, t_run_table jw d T name fs = t_run_table jw d T' name fs'.
   Proof.
@@ -45,15 +46,33 @@ Section Cong.
   Qed.
 End Cong.
 
-(* ------------------------------------------------------------------ values without leaf structs *)
-Definition plain_v (v : fval) : bool :=
-  match v with FEndpoints _ | FPubKey _ _ _ | FSource _ _ => false | _ => true end.
-Definition plain_o (o : option fval) : bool := match o with Some v => plain_v v | None => true end.
+(* ------------------------------------------------------------------ lookups in an endpoints list in struct order *)
+Lemma efind_eiso l f : (forall q, In q l -> in_eorder (fst q) = true) -> efind f (endpoints_in_struct_order l) = efind f l.
+Proof.
+  intros H. rewrite eiso_unfold, (filter_nil _ l) by (intros q Hq; rewrite (H q Hq); reflexivity). rewrite app_nil_r, efind_picked.
+  destruct (existsb (fid_beq f) endpoints_struct_order) eqn:E; [reflexivity|].
+  symmetry. apply efind_none. intros q Hq Hf. specialize (H q Hq). unfold in_eorder in H. rewrite Hf, E in H. discriminate.
+Qed.
 
-(* on such a value a writer never runs a callee table *)
-Lemma t_value_run_indep T R R' w via term o : plain_o o = true ->
-  t_value T R w via term o = t_value T R' w via term o.
-Proof. intro H. destruct o as [v|]; [destruct v; try discriminate H|]; reflexivity. Qed.
+(* a struct value given to a writer: only JSONWriteProp looks inside it *)
+Lemma t_value_struct_cong T T' R R' w via term v v' :
+  match v, v' with
+  | FSource mt c, FSource mt' c' =>
+      t_struct R (B "Source_MarshalJSON") (source_fields mt c) = t_struct R' (B "Source_MarshalJSON") (source_fields mt' c')
+  | FEndpoints (Some e), FEndpoints (Some e') =>
+      t_struct R (B "Endpoints_MarshalJSON") (endpoints_fields e) = t_struct R' (B "Endpoints_MarshalJSON") (endpoints_fields e')
+  | FPubKey a b c, FPubKey a' b' c' =>
+      t_struct R (B "PublicKey_MarshalJSON") (pubkey_fields a b c) = t_struct R' (B "PublicKey_MarshalJSON") (pubkey_fields a' b' c')
+  | _, _ => False
+  end ->
+  t_value T R w via term (Some v) = t_value T' R' w via term (Some v').
+Proof.
+  intros H. unfold t_value.
+  destruct v as [ | | | | | | | | | |mt c|[e|]|a b c]; try destruct H;
+    destruct v' as [ | | | | | | | | | |mt' c'|[e'|]|a' b' c']; try destruct H;
+    repeat (match goal with |- context [if bytes_eqb w ?x then _ else _] => destruct (bytes_eqb w x) end; try reflexivity);
+    rewrite H; reflexivity.
+Qed.
 
 Section Inv.
   Variable jw : list (bytes * bool * list wstmt).
@@ -70,9 +89,6 @@ Section Inv.
 
   (* a field value of a well-formed object, or an unset field *)
   Definition wfo (o : option fval) : Prop := match o with None => True | Some v => exists ty, wfv ty v = true end.
-
-  Lemma wfv_plain ty v : wfv ty v = true -> plain_v v = true.
-  Proof. destruct ty, v; try discriminate; reflexivity. Qed.
 
   (* the loops of the tree interpreter over a list, given two item interpreters that agree on the members *)
   Lemma go_arr_ext (A A' : item -> option (option fjv)) (l l' : list item) :
@@ -134,7 +150,7 @@ Section Inv.
     { destruct g as [f|f|f|f|f| |src]; cbn [eval_guard]; try rewrite (Hg f); try reflexivity.
       - (* x.F != nil *)
         specialize (Hw f). destruct (getf f fs) as [v|]; [|reflexivity]. destruct Hw as [ty Hv]. cbn [option_map].
-        destruct v as [i|[l|]|l|s|t|d|u|z|bb|m|mt c|e|a0 b0 c0]; destruct ty; try discriminate Hv; try reflexivity.
+        destruct v as [i|[l|]|l|s|t|d|u|z|bb|m|mt c|[[|p0 e0]|]|a0 b0 c0]; destruct ty; try discriminate Hv; try reflexivity; try (rewrite norm_endpoints; reflexivity).
         + rewrite wfv_item in Hv.
           pose proof (wf_norm layout_of registry load_switch activity_types actor_types link_types Hlayout i Hv) as Hn.
           change (nrmv (FItem i)) with (FItem (nrm i)). cbn [g_ne_nil].
@@ -142,49 +158,85 @@ Section Inv.
         + destruct l as [l|]; [|discriminate Hv]. destruct l as [|[r0 v0] [|e2 l']]; reflexivity.
       - (* len(x.F) > 0 *)
         specialize (Hw f). destruct (getf f fs) as [v|]; [|reflexivity]. destruct Hw as [ty Hv]. cbn [option_map].
-        destruct v as [i|[l|]|l|s|t|d|u|z|bb|m|mt c|e|a0 b0 c0]; destruct ty; try discriminate Hv; try reflexivity.
+        destruct v as [i|[l|]|l|s|t|d|u|z|bb|m|mt c|[[|p0 e0]|]|a0 b0 c0]; destruct ty; try discriminate Hv; try reflexivity; try (rewrite norm_endpoints; reflexivity).
         + destruct l as [|x r0]; [discriminate Hv|]. rewrite (nrmv_items layout_of (x :: r0)). reflexivity.
         + destruct l as [l|]; [|discriminate Hv]. destruct l as [|[r0 v0] [|e2 l']]; reflexivity.
       - (* !x.F.IsZero() *)
         specialize (Hw f). destruct (getf f fs) as [v|]; [|reflexivity]. destruct Hw as [ty Hv]. cbn [option_map].
-        destruct v as [i|[l|]|l|s|t|d|u|z|bb|m|mt c|e|a0 b0 c0]; destruct ty; try discriminate Hv; try reflexivity.
-        rewrite wfv_time in Hv. unfold time_ok in Hv. rewrite !andb_true_iff in Hv. destruct Hv as [_ Hz].
+        destruct v as [i|[l|]|l|s|t|d|u|z|bb|m|mt c|[[|p0 e0]|]|a0 b0 c0]; destruct ty; try discriminate Hv; try reflexivity; try (rewrite norm_endpoints; reflexivity).
+        + rewrite wfv_time in Hv. unfold time_ok in Hv. rewrite !andb_true_iff in Hv. destruct Hv as [_ Hz].
           change (nrmv (FTime t)) with (FTime (norm_time t)). cbn [g_not_zero_time]. unfold vtime_is_zero, norm_time. cbn [vsecs vnanos].
           apply negb_true_iff in Hz. rewrite Hz. reflexivity.
       - (* x.F != 0 *)
         specialize (Hw f). destruct (getf f fs) as [v|]; [|reflexivity]. destruct Hw as [ty Hv]. cbn [option_map].
-        destruct v as [i|[l|]|l|s|t|d|u|z|bb|m|mt c|e|a0 b0 c0]; destruct ty; try discriminate Hv; reflexivity.
+        destruct v as [i|[l|]|l|s|t|d|u|z|bb|m|mt c|[[|p0 e0]|]|a0 b0 c0]; destruct ty; try discriminate Hv; try reflexivity; try (rewrite norm_endpoints; reflexivity).
       - (* x.F > 0 *)
         specialize (Hw f). destruct (getf f fs) as [v|]; [|reflexivity]. destruct Hw as [ty Hv]. cbn [option_map].
-        destruct v as [i|[l|]|l|s|t|d|u|z|bb|m|mt c|e|a0 b0 c0]; destruct ty; try discriminate Hv; reflexivity.
+        destruct v as [i|[l|]|l|s|t|d|u|z|bb|m|mt c|[[|p0 e0]|]|a0 b0 c0]; destruct ty; try discriminate Hv; try reflexivity; try (rewrite norm_endpoints; reflexivity).
       - (* the PublicKey guard *)
         destruct (bytes_eqb src (pubkey_guard_src)); [|reflexivity].
         rewrite (Hg F_PublicKey). specialize (Hw F_PublicKey). destruct (getf F_PublicKey fs) as [v|]; [|reflexivity].
         destruct Hw as [ty Hv]. cbn [option_map].
-        destruct v as [i|[l|]|l|s|t|d|u|z|bb|m|mt c|e|a0 b0 c0]; destruct ty; try discriminate Hv; reflexivity. }
+        destruct v as [i|[l|]|l|s|t|d|u|z|bb|m|mt c|[[|p0 e0]|]|a0 b0 c0]; destruct ty; try discriminate Hv; try reflexivity; try (rewrite norm_endpoints; reflexivity). }
     rewrite E. destruct (eval_guard fs' b g) as [[|]|]; [exact IH|reflexivity|reflexivity].
   Qed.
 
+  Lemma wfv_endpoints_facts e : wfv TEndpoints (FEndpoints (Some e)) = true ->
+    e <> [] /\ (forall q, In q e -> in_eorder (fst q) = true) /\ forall q, In q e -> wf (snd q) = true.
+  Proof.
+    intro Hv. destruct e as [|p0 e0]; [discriminate Hv|]. cbn [wf_fval] in Hv. rewrite !andb_true_iff in Hv. destruct Hv as [[_ Hord] Hmem].
+    split; [discriminate|]. split.
+    - rewrite forallb_forall in Hord. exact Hord.
+    - exact (wf_endpoints_members layout_of registry load_switch activity_types actor_types link_types (p0 :: e0) Hmem).
+  Qed.
+  Lemma wfv_endpoints_members e : wfv TEndpoints (FEndpoints (Some e)) = true -> forall q, In q e -> wf (snd q) = true.
+  Proof. intro Hv. exact (proj2 (proj2 (wfv_endpoints_facts e Hv))). Qed.
+
   (* ---- what a writer sees of one field value ---- *)
+  (* the two uses: the same value under two fuels (mode false), the normal form against the value (mode true) *)
   Section Value.
     Variables f f' : nat.     (* the fuels of the two member interpreters: tree_item (S f) / tree_item (S f') *)
-    Variable h : item -> item.       (* identity (fuel lemma) or the normal form *)
-    Variable hv : fval -> fval.
-    Hypothesis hv_item : forall i, hv (FItem i) = FItem (h i).
-    Hypothesis hv_items : forall l, hv (FItems (Some l)) = FItems (Some (map h l)).
-    Hypothesis hv_nlv : forall l, hv (FNlv (Some l)) = FNlv (norm_nlv (Some l)) \/ hv (FNlv (Some l)) = FNlv (Some l).
-    Hypothesis hv_time : forall t, exists t', hv (FTime t) = FTime t' /\ vsecs t' = vsecs t.
-    Hypothesis hv_other : forall v, match v with FItem _ | FItems (Some _) | FNlv (Some _) | FTime _ => True | _ => hv v = v end.
+    Variable mode : bool.
+    Definition hm (i : item) : item := if mode then nrm i else i.
+    Definition hvm (v : fval) : fval := if mode then nrmv v else v.
+    Notation h := hm.
+    Notation hv := hvm.
 
-    Lemma value_same v ty (R R' : bytes -> list (fid * fval) -> option (list (bytes * fjv) * bool)) w via term :
-      wfv ty v = true ->
+    Lemma hv_item i : hv (FItem i) = FItem (h i).
+    Proof. unfold hvm, hm. destruct mode; reflexivity. Qed.
+    Lemma hv_items l : hv (FItems (Some l)) = FItems (Some (map h l)).
+    Proof. unfold hvm, hm. destruct mode; [apply (nrmv_items layout_of)|rewrite map_id; reflexivity]. Qed.
+    Lemma hv_nlv l : hv (FNlv l) = FNlv (if mode then norm_nlv l else l).
+    Proof. unfold hvm. destruct mode; reflexivity. Qed.
+    Lemma hv_time t : exists t', hv (FTime t) = FTime t' /\ vsecs t' = vsecs t.
+    Proof. unfold hvm. destruct mode; [exists (norm_time t)|exists t]; split; reflexivity. Qed.
+    Lemma hv_source mt c : hv (FSource mt c) = FSource mt (if mode then norm_nlv c else c).
+    Proof. unfold hvm. destruct mode; reflexivity. Qed.
+    Lemma hv_endpoints e : hv (FEndpoints (Some e))
+      = FEndpoints (Some (if mode then endpoints_in_struct_order (map (fun p => (fst p, nrm (snd p))) e) else e)).
+    Proof. unfold hvm. destruct mode; [apply norm_endpoints|reflexivity]. Qed.
+    Lemma hv_other v : match v with FItem _ | FItems (Some _) | FNlv _ | FTime _ | FSource _ _ | FEndpoints (Some _) => True
+                                    | _ => hv v = v end.
+    Proof. unfold hvm. destruct mode; destruct v as [i|[l|]|l|s|t|d|u|z|bb|m|mt c|[e|]|a0 b0 c0]; try exact I; reflexivity. Qed.
+
+    Lemma nlv_single_same l : text_ok l = true -> t_nlv (match norm_nlv (Some l) with Some l' => l' | None => [] end) = t_nlv l
+      /\ Nat.ltb 1 (length (match norm_nlv (Some l) with Some l' => l' | None => [] end)) = Nat.ltb 1 (length l).
+    Proof.
+      intros Hv. destruct l as [|[r0 v0] [|e2 l']]; try (split; reflexivity).
+      cbn [norm_nlv]. unfold text_ok in Hv. rewrite !andb_true_iff in Hv. destruct Hv as [[_ He] _].
+      cbn [forallb] in He. rewrite andb_true_r in He. unfold ok_entryb in He. cbn [fst snd] in He.
+      rewrite !andb_true_iff in He. destruct He as [_ Hne]. destruct v0; [discriminate Hne|]. split; reflexivity.
+    Qed.
+
+    Lemma value_same_plain v ty (R R' : bytes -> list (fid * fval) -> option (list (bytes * fjv) * bool)) w via term :
+      leafless ty = true -> wfv ty v = true ->
       (forall i, ty = TItem -> v = FItem i -> tr (S f) (h i) = tr (S f') i) ->
       (forall l, ty = TItems -> v = FItems (Some l) ->
          Forall2 (fun x x' => tr (S f) x = tr (S f') x') (map h l) l /\ Forall2 (fun x x' => tr f x = tr f' x') (map h l) l) ->
       t_value (tr (S f)) R w via term (Some (hv v)) = t_value (tr (S f')) R' w via term (Some v).
     Proof.
-      intros Hv Hi Hl.
-      destruct v as [i|[l|]|l|s|t|d|u|z|bb|m|mt c|e|a0 b0 c0]; destruct ty; try discriminate Hv.
+      intros Hll Hv Hi Hl.
+      destruct v as [i|[l|]|l|s|t|d|u|z|bb|m|mt c|e|a0 b0 c0]; destruct ty; try discriminate Hv; try discriminate Hll.
       - (* item *) rewrite hv_item. unfold t_value. rewrite (Hi i eq_refl eq_refl). reflexivity.
       - (* list *)
         rewrite hv_items. destruct (Hl l eq_refl eq_refl) as [H1 H2]. unfold t_value.
@@ -192,7 +244,7 @@ Section Inv.
         destruct l as [|x r]; [discriminate Hv|]. cbn [map].
         rewrite (go_coll_ext (tr (S f)) (tr (S f')) term (h x :: map h r) (x :: r) H1 []). reflexivity.
       - (* text *)
-        destruct l as [l|]; [|discriminate Hv]. destruct (hv_nlv l) as [E|E]; rewrite E; [|reflexivity].
+        destruct l as [l|]; [|discriminate Hv]. rewrite hv_nlv. destruct mode; [|reflexivity].
         rewrite wfv_nlv in Hv. destruct l as [|[r0 v0] [|e2 l']]; try reflexivity.
         cbn [norm_nlv]. unfold text_ok in Hv. rewrite !andb_true_iff in Hv. destruct Hv as [[_ He] _].
         cbn [forallb] in He. rewrite andb_true_r in He. unfold ok_entryb in He. cbn [fst snd] in He.
@@ -204,6 +256,123 @@ Section Inv.
       - pose proof (hv_other (FInt z)) as E. cbn in E. rewrite E. reflexivity.
       - pose proof (hv_other (FBool bb)) as E. cbn in E. rewrite E. reflexivity.
       - pose proof (hv_other (FFloat m)) as E. cbn in E. rewrite E. reflexivity.
+    Qed.
+
+    (* the parts of a leaf struct are plain values: one more use of the congruence of the table interpreter *)
+    Lemma parts_same ifs ifs' d name :
+      (forall g0, match getf g0 ifs' with
+                  | Some v' => exists ty, leafless ty = true /\ wfv ty v' = true /\ getf g0 ifs = Some (hv v') /\
+                                 (forall i, ty = TItem -> v' = FItem i -> tr (S f) (h i) = tr (S f') i) /\ ty <> TItems
+                  | None => getf g0 ifs = None
+                  end) ->
+      (forall b gs, eval_guards ifs b gs = eval_guards ifs' b gs) ->
+      t_struct (t_run_table jw d (tr (S f))) name ifs = t_struct (t_run_table jw d (tr (S f'))) name ifs'.
+    Proof.
+      intros Hp Hg. unfold t_struct. rewrite (run_table_cong jw (tr (S f)) (tr (S f')) ifs ifs'); [reflexivity| |exact Hg].
+      intros d0 path w via term.
+      assert (P1 : forall g0, t_value (tr (S f)) (t_run_table jw d0 (tr (S f))) w via term (getf g0 ifs)
+                              = t_value (tr (S f')) (t_run_table jw d0 (tr (S f'))) w via term (getf g0 ifs')).
+      { intros g0. specialize (Hp g0). destruct (getf g0 ifs') as [v'|].
+        - destruct Hp as [ty [Hll [Hv [-> [Hi Hnl]]]]]. apply (value_same_plain v' ty); try assumption. intros l Ety. congruence.
+        - rewrite Hp. reflexivity. }
+      destruct path as [|g0 [|g1 [|x r]]]; try reflexivity; cbn [path_get]; [apply P1|].
+      (* a path of two names: the parts hold no struct *)
+      pose proof (Hp g0) as H0. destruct (getf g0 ifs') as [v'|].
+      - destruct H0 as [ty [Hll [Hv [-> _]]]].
+        destruct v' as [i|[l|]|l|s|t|dd|u|z|bb|m|mt c|[e|]|a0 b0 c0]; destruct ty; try discriminate Hv; try discriminate Hll.
+        + rewrite hv_item. reflexivity.
+        + rewrite hv_items. reflexivity.
+        + rewrite hv_nlv. reflexivity.
+        + pose proof (hv_other (Vocab.FStr s)) as E. cbn in E. rewrite E. reflexivity.
+        + destruct (hv_time t) as [t' [E _]]. rewrite E. reflexivity.
+        + pose proof (hv_other (FDur dd)) as E. cbn in E. rewrite E. reflexivity.
+        + pose proof (hv_other (FUint u)) as E. cbn in E. rewrite E. reflexivity.
+        + pose proof (hv_other (FInt z)) as E. cbn in E. rewrite E. reflexivity.
+        + pose proof (hv_other (FBool bb)) as E. cbn in E. rewrite E. reflexivity.
+        + pose proof (hv_other (FFloat m)) as E. cbn in E. rewrite E. reflexivity.
+      - rewrite H0. reflexivity.
+    Qed.
+
+    (* the guards of a leaf table on the parts of the value and of its image *)
+    Lemma parts_guards ifs ifs' : (forall g0, wfo (getf g0 ifs')) -> (forall g0, getf g0 ifs = option_map hv (getf g0 ifs')) ->
+      (mode = false -> ifs = ifs') -> forall b gs, eval_guards ifs b gs = eval_guards ifs' b gs.
+    Proof.
+      intros Hw Hg Hid b gs. destruct mode eqn:Em.
+      - symmetry. apply guards_same; [exact Hw|]. intros g0. rewrite Hg. unfold hvm. rewrite Em. reflexivity.
+      - rewrite (Hid eq_refl). reflexivity.
+    Qed.
+
+    Lemma value_same v ty d w via term :
+      wfv ty v = true ->
+      (forall i, ty = TItem -> v = FItem i -> tr (S f) (h i) = tr (S f') i) ->
+      (forall l, ty = TItems -> v = FItems (Some l) ->
+         Forall2 (fun x x' => tr (S f) x = tr (S f') x') (map h l) l /\ Forall2 (fun x x' => tr f x = tr f' x') (map h l) l) ->
+      (forall e, ty = TEndpoints -> v = FEndpoints (Some e) -> forall q, In q e -> tr (S f) (h (snd q)) = tr (S f') (snd q)) ->
+      t_value (tr (S f)) (t_run_table jw d (tr (S f))) w via term (Some (hv v))
+      = t_value (tr (S f')) (t_run_table jw d (tr (S f'))) w via term (Some v).
+    Proof.
+      intros Hv Hi Hl He. destruct (leafless ty) eqn:Hll; [exact (value_same_plain v ty _ _ w via term Hll Hv Hi Hl)|].
+      destruct ty; try discriminate Hll.
+      - (* source *)
+        destruct v as [ | | | | | | | | | |mt c| | ]; try discriminate Hv. cbn [wf_fval] in Hv.
+        rewrite !andb_true_iff, negb_true_iff in Hv. destruct Hv as [[Hmt Hc] Hnz].
+        rewrite hv_source. apply t_value_struct_cong.
+        set (c' := if mode then norm_nlv c else c).
+        assert (Hgetf : forall g0, getf g0 (source_fields mt c') = option_map hv (getf g0 (source_fields mt c))).
+        { intros g0. rewrite !getf_source. destruct (fid_beq g0 F_Content).
+          - unfold c'. destruct c as [l|]; [|destruct mode; reflexivity]. cbn [option_map]. rewrite hv_nlv.
+            destruct mode; [|reflexivity]. destruct l as [|[r0 v0] [|e2 l']]; reflexivity.
+          - destruct (fid_beq g0 F_MediaType); [|reflexivity]. destruct mt; [reflexivity|]. cbn [option_map].
+            pose proof (hv_other (Vocab.FStr (b :: mt))) as E. cbn in E. rewrite E. reflexivity. }
+        assert (Hparts : forall g0, wfo (getf g0 (source_fields mt c))).
+        { intros g0. unfold wfo. destruct (getf g0 (source_fields mt c)) as [v'|] eqn:Eg; [|exact I].
+          destruct (getf_source_inv g0 mt c v' Eg) as [[_ [-> Hc1]]|[_ [-> Hm1]]].
+          - destruct c as [l|]; [|congruence]. exists TNlv. exact Hc.
+          - destruct mt; [congruence|]. exists TString. exact Hmt. }
+        apply parts_same.
+        + intros g0. specialize (Hgetf g0). destruct (getf g0 (source_fields mt c)) as [v'|] eqn:Eg; [|exact Hgetf].
+          destruct (getf_source_inv g0 mt c v' Eg) as [[_ [-> Hc1]]|[_ [-> Hm1]]].
+          * destruct c as [l|]; [|congruence]. exists TNlv. split; [reflexivity|]. split; [exact Hc|]. split; [exact Hgetf|]. split; [discriminate|discriminate].
+          * destruct mt; [congruence|]. exists TString. split; [reflexivity|]. split; [exact Hmt|]. split; [exact Hgetf|]. split; [discriminate|discriminate].
+        + apply parts_guards; [exact Hparts|exact Hgetf|]. intros Em. unfold c'. rewrite Em. reflexivity.
+      - (* endpoints *)
+        destruct v as [ | | | | | | | | | | |[e|]| ]; try discriminate Hv.
+        destruct (wfv_endpoints_facts e Hv) as [Hene [Hord Hwm]].
+        rewrite hv_endpoints. apply t_value_struct_cong.
+        set (e' := if mode then endpoints_in_struct_order (map (fun p => (fst p, nrm (snd p))) e) else e).
+        assert (Hfind : forall g0, efind g0 e' = option_map (fun p => (fst p, h (snd p))) (efind g0 e)).
+        { intros g0. unfold e', hm. destruct mode.
+          - rewrite efind_eiso, efind_map; [reflexivity|]. intros q Hq. apply in_map_iff in Hq. destruct Hq as [q0 [<- Hq0]]. cbn [fst].
+            exact (Hord q0 Hq0).
+          - destruct (efind g0 e) as [[? ?]|]; reflexivity. }
+        assert (Hgetf : forall g0, getf g0 (endpoints_fields e') = option_map hv (getf g0 (endpoints_fields e))).
+        { intros g0. rewrite !getf_endpoints, Hfind. destruct (efind g0 e) as [q|]; [|reflexivity]. cbn [option_map snd]. rewrite hv_item. reflexivity. }
+        assert (Hparts : forall g0, wfo (getf g0 (endpoints_fields e))).
+        { intros g0. unfold wfo. rewrite getf_endpoints. destruct (efind g0 e) as [q|] eqn:Eq; [|exact I]. cbn [option_map].
+          exists TItem. exact (Hwm q (proj1 (efind_some _ _ _ Eq))). }
+        apply parts_same.
+        + intros g0. pose proof (Hgetf g0) as Hg0. rewrite (getf_endpoints g0 e) in Hg0 |- *.
+          destruct (efind g0 e) as [q|] eqn:Eq; cbn [option_map] in Hg0 |- *; [|exact Hg0].
+          destruct (efind_some _ _ _ Eq) as [Hq _].
+          exists TItem. split; [reflexivity|]. split; [exact (Hwm q Hq)|]. split; [exact Hg0|]. split; [|discriminate].
+          intros i _ Ei. inversion Ei; subst i. exact (He e eq_refl eq_refl q Hq).
+        + apply parts_guards; [exact Hparts|exact Hgetf|]. intros Em. unfold e'. rewrite Em. reflexivity.
+      - (* public key *)
+        destruct v as [ | | | | | | | | | | | |a0 b0 c0]; try discriminate Hv. cbn [wf_fval] in Hv.
+        rewrite !andb_true_iff, negb_true_iff in Hv. destruct Hv as [[[Hid How] Hpem] Hnz].
+        pose proof (hv_other (FPubKey a0 b0 c0)) as E. cbn in E. rewrite E. apply t_value_struct_cong.
+        assert (Hparts : forall g0 v', getf g0 (pubkey_fields a0 b0 c0) = Some v' -> wfv TString v' = true /\ hv v' = v').
+        { intros g0 v' Eg. destruct (getf_pubkey_inv g0 a0 b0 c0 v' Eg) as [[_ [-> Hn]]|[[_ [-> Hn]]|[_ [-> Hn]]]];
+            (split; [|pose proof (hv_other (Vocab.FStr a0)) as E1; pose proof (hv_other (Vocab.FStr b0)) as E2; pose proof (hv_other (Vocab.FStr c0)) as E3;
+                      cbn in E1, E2, E3; assumption]); cbn [wf_fval].
+          - destruct a0; [congruence|exact Hid].
+          - destruct b0; [congruence|exact How].
+          - destruct c0; [congruence|exact Hpem]. }
+        apply parts_same.
+        + intros g0. destruct (getf g0 (pubkey_fields a0 b0 c0)) as [v'|] eqn:Eg; [|reflexivity].
+          destruct (Hparts g0 v' Eg) as [H1 H2]. exists TString. split; [reflexivity|]. split; [exact H1|]. split; [rewrite H2; reflexivity|].
+          split; [discriminate|discriminate].
+        + intros b gs. reflexivity.
     Qed.
   End Value.
 
@@ -221,11 +390,33 @@ Section Inv.
     destruct (wf_obj_fields p k fs Hw f v (getf_in _ _ _ E)) as [d [_ Hv]]. eauto.
   Qed.
 
+  (* a part of a well-formed leaf struct is a well-formed string / text *)
+  Lemma struct_part_wfo ty v g0 : wfv ty v = true ->
+    wfo (match v with
+         | FPubKey id o p => getf g0 (pubkey_fields id o p)
+         | FSource mt c => getf g0 (source_fields mt c)
+         | _ => None
+         end).
+  Proof.
+    intro Hv. unfold wfo. destruct v as [i|l|l|s|t|d|u|z|bb|m|mt c|e|a0 b0 c0]; try exact I.
+    - destruct (getf g0 (source_fields mt c)) as [v'|] eqn:Eg; [|exact I]. destruct ty; try discriminate Hv.
+      cbn [wf_fval] in Hv. rewrite !andb_true_iff in Hv. destruct Hv as [[Hmt Hc] _].
+      destruct (getf_source_inv g0 mt c v' Eg) as [[_ [-> Hc1]]|[_ [-> Hm1]]].
+      + destruct c as [l|]; [|congruence]. exists TNlv. exact Hc.
+      + destruct mt; [congruence|]. exists TString. exact Hmt.
+    - destruct (getf g0 (pubkey_fields a0 b0 c0)) as [v'|] eqn:Eg; [|exact I]. destruct ty; try discriminate Hv.
+      cbn [wf_fval] in Hv. rewrite !andb_true_iff in Hv. destruct Hv as [[[Hid How] Hpem] _]. exists TString.
+      destruct (getf_pubkey_inv g0 a0 b0 c0 v' Eg) as [[_ [-> Hn]]|[[_ [-> Hn]]|[_ [-> Hn]]]]; cbn [wf_fval].
+      + destruct a0; [congruence|exact Hid].
+      + destruct b0; [congruence|exact How].
+      + destruct c0; [congruence|exact Hpem].
+  Qed.
+
   Lemma path_get_wfo fs : (forall f, wfo (getf f fs)) -> forall path, wfo (path_get path fs).
   Proof.
     intros H path. destruct path as [|f [|g [|x r]]]; try exact I; cbn [path_get]; [apply H|].
     specialize (H f). destruct (getf f fs) as [v|]; [|exact I]. destruct H as [ty Hv].
-    destruct v; destruct ty; try discriminate Hv; exact I.
+    pose proof (struct_part_wfo ty v g Hv) as P. destruct v; try exact I; exact P.
   Qed.
 
   (* the fields of the normal form, looked up *)
@@ -250,7 +441,17 @@ Section Inv.
   Proof.
     intros Hw path. destruct path as [|f [|g [|x r]]]; try reflexivity; cbn [path_get]; [apply (norm_getf p k fs Hw)|].
     rewrite (norm_getf p k fs Hw f). pose proof (wf_obj_wfo p k fs Hw f) as H. destruct (getf f fs) as [v|]; [|reflexivity].
-    destruct H as [ty Hv]. destruct v as [i|[l|]|l|s|t|d|u|z|bb|m|mt c|e|a0 b0 c0]; destruct ty; try discriminate Hv; reflexivity.
+    destruct H as [ty Hv]. destruct v as [i|[l|]|l|s|t|d|u|z|bb|m|mt c|[e|]|a0 b0 c0]; destruct ty; try discriminate Hv; try reflexivity.
+    - (* a part of a source *)
+      cbn [option_map]. change (nrmv (FSource mt c)) with (FSource mt (norm_nlv c)). cbv iota. rewrite !getf_source.
+      cbn [wf_fval] in Hv. rewrite !andb_true_iff in Hv. destruct Hv as [[_ Hc] _].
+      destruct (fid_beq g F_Content).
+      + destruct c as [l|]; [|reflexivity]. cbn [option_map]. destruct l as [|[r0 v0] [|e2 l']]; reflexivity.
+      + destruct (fid_beq g F_MediaType); [|reflexivity]. destruct mt; reflexivity.
+    - (* a part of a public key *)
+      cbn [option_map]. change (nrmv (FPubKey a0 b0 c0)) with (FPubKey a0 b0 c0).
+      destruct (getf g (pubkey_fields a0 b0 c0)) as [v'|] eqn:Eg; [|reflexivity].
+      destruct (getf_pubkey_inv g a0 b0 c0 v' Eg) as [[_ [-> _]]|[[_ [-> _]]|[_ [-> _]]]]; reflexivity.
   Qed.
 
   Lemma wfv_items_elems l : wfv TItems (FItems (Some l)) = true -> forall x, In x l -> is_elem x = true /\ wf x = true.
@@ -263,6 +464,16 @@ Section Inv.
   Lemma size_field_lt p k (fs : list (fid * fval)) f v : getf f fs = Some v -> fval_size v < item_size (IObj p k fs).
   Proof. intro E. pose proof (size_in_fields fs f v (getf_in _ _ _ E)). cbn [item_size]. lia. Qed.
 
+  Lemma size_path_lt p k fs path v : wf (IObj p k fs) = true -> path_get path fs = Some v -> fval_size v < item_size (IObj p k fs).
+  Proof.
+    intros Hw Ep. destruct path as [|f0 [|g0 [|x0 r0]]]; try discriminate Ep; cbn [path_get] in Ep.
+    - exact (size_field_lt p k fs f0 v Ep).
+    - destruct (getf f0 fs) as [v0|] eqn:E0; [|discriminate Ep]. pose proof (size_field_lt p k fs f0 v0 E0) as S0.
+      destruct v0 as [i|l|l|s|t|d|u|z|bb|m|mt c|e|a0 b0 c0]; try discriminate Ep.
+      + destruct (getf_source_inv g0 mt c v Ep) as [[_ [-> _]]|[_ [-> _]]]; cbn [fval_size] in *; lia.
+      + destruct (getf_pubkey_inv g0 a0 b0 c0 v Ep) as [[_ [-> _]]|[[_ [-> _]]|[_ [-> _]]]]; cbn [fval_size] in *; lia.
+  Qed.
+
   (* ------------------------------------------------------------------ the fuel beyond the size does not matter *)
   Theorem tree_fuel_n : forall n x f f', item_size x <= n -> wf x = true -> item_size x < f -> item_size x < f' -> tr f x = tr f' x.
   Proof.
@@ -274,27 +485,18 @@ Section Inv.
       + (* object *)
         cbn [tree_item]. unfold t_struct.
         rewrite (run_table_cong jw (tr g) (tr g') fs fs); [reflexivity| |reflexivity].
-        intros R R' path w via term.
+        intros d path w via term.
         pose proof (path_get_wfo fs (wf_obj_wfo p k fs Hw) path) as Ho.
         destruct (path_get path fs) as [v|] eqn:Ep; [|reflexivity]. destruct Ho as [ty Hv].
-        assert (Hsz : fval_size v < item_size (IObj p k fs)).
-        { destruct path as [|f0 [|g0 [|x0 r0]]]; try discriminate Ep; cbn [path_get] in Ep.
-          - exact (size_field_lt p k fs f0 v Ep).
-          - destruct (getf f0 fs) as [v0|] eqn:E0; [|discriminate Ep].
-            pose proof (wf_obj_wfo p k fs Hw f0) as H0. rewrite E0 in H0. destruct H0 as [ty0 Hv0].
-            destruct v0; destruct ty0; try discriminate Hv0; discriminate Ep. }
+        pose proof (size_path_lt p k fs path v Hw Ep) as Hsz.
         destruct g as [|g0]; [lia|]. destruct g' as [|g0']; [lia|].
-        rewrite <- (t_value_run_indep (tr (S g0')) R R' w via term (Some v)) by (cbn [plain_o]; exact (wfv_plain ty v Hv)).
-        apply (value_same g0 g0' (fun x => x) (fun v => v)) with (ty := ty); try exact Hv.
-        * reflexivity.
-        * intro l. rewrite map_id. reflexivity.
-        * intro l. right. reflexivity.
-        * intro t. exists t. split; reflexivity.
-        * intro v0. destruct v0 as [i|[l|]|[l|]|s|t|d|u|z|bb|m|mt c|e|a0 b0 c0]; try exact I; reflexivity.
-        * intros i Ety Ev. subst ty v. cbn [fval_size] in Hsz. rewrite wfv_item in Hv. apply IH; [lia|exact Hv|lia|lia].
-        * intros l Ety Ev. subst ty v. rewrite map_id.
+        apply (value_same g0 g0' false v ty d w via term Hv).
+        * intros i Ety Ev. subst ty v. cbn [fval_size] in Hsz. rewrite wfv_item in Hv. unfold hm. apply IH; [lia|exact Hv|lia|lia].
+        * intros l Ety Ev. subst ty v. unfold hm. rewrite map_id.
           split; apply forall2_same; intros x Hx; pose proof (size_fitems_lt l x Hx) as Q;
             (apply IH; [lia|exact (proj2 (wfv_items_elems l Hv x Hx))|lia|lia]).
+        * intros e Ety Ev q Hq. subst ty v. unfold hm. pose proof (size_endpoints_in e q Hq) as Q.
+          apply IH; [lia|exact (wfv_endpoints_members e Hv q Hq)|lia|lia].
       + (* list *)
         destruct l as [|x r]; [discriminate Hw|]. rewrite wf_items in Hw. apply andb_true_iff in Hw. destruct Hw as [Hg _].
         pose proof (wf_list_elems layout_of registry load_switch activity_types actor_types link_types (x :: r) Hg) as Hel.
@@ -313,27 +515,18 @@ Section Inv.
       + (* object *)
         rewrite (norm_obj layout_of p k fs). cbn [tree_item]. unfold t_struct.
         rewrite (run_table_cong jw (tr g) (tr g) (canon_fields layout_of k (norm_fields layout_of fs)) fs); [reflexivity| |].
-        * intros R R' path w via term. rewrite (path_get_norm p k fs Hw path).
+        * intros d path w via term. rewrite (path_get_norm p k fs Hw path).
           pose proof (path_get_wfo fs (wf_obj_wfo p k fs Hw) path) as Ho.
           destruct (path_get path fs) as [v|] eqn:Ep; [|reflexivity]. destruct Ho as [ty Hv]. cbn [option_map].
-          assert (Hsz : fval_size v < item_size (IObj p k fs)).
-          { destruct path as [|f0 [|g0 [|x0 r0]]]; try discriminate Ep; cbn [path_get] in Ep.
-            - exact (size_field_lt p k fs f0 v Ep).
-            - destruct (getf f0 fs) as [v0|] eqn:E0; [|discriminate Ep].
-              pose proof (wf_obj_wfo p k fs Hw f0) as H0. rewrite E0 in H0. destruct H0 as [ty0 Hv0].
-              destruct v0; destruct ty0; try discriminate Hv0; discriminate Ep. }
+          pose proof (size_path_lt p k fs path v Hw Ep) as Hsz.
           destruct g as [|g0]; [lia|].
-          rewrite <- (t_value_run_indep (tr (S g0)) R R' w via term (Some v)) by (cbn [plain_o]; exact (wfv_plain ty v Hv)).
-          apply (value_same g0 g0 nrm nrmv) with (ty := ty); try exact Hv.
-          -- reflexivity.
-          -- intro l. apply (nrmv_items layout_of).
-          -- intro l. left. reflexivity.
-          -- intro t. exists (norm_time t). split; reflexivity.
-          -- intro v0. destruct v0 as [i|[l|]|[l|]|s|t|d|u|z|bb|m|mt c|e|a0 b0 c0]; try exact I; reflexivity.
-          -- intros i Ety Ev. subst ty v. cbn [fval_size] in Hsz. rewrite wfv_item in Hv. apply IH; [lia|exact Hv|lia].
-          -- intros l Ety Ev. subst ty v.
+          apply (value_same g0 g0 true v ty d w via term Hv).
+          -- intros i Ety Ev. subst ty v. cbn [fval_size] in Hsz. rewrite wfv_item in Hv. unfold hm. apply IH; [lia|exact Hv|lia].
+          -- intros l Ety Ev. subst ty v. unfold hm.
              split; apply forall2_map_l; intros x Hx; pose proof (size_fitems_lt l x Hx) as Q;
                (apply IH; [lia|exact (proj2 (wfv_items_elems l Hv x Hx))|lia]).
+          -- intros e Ety Ev q Hq. subst ty v. unfold hm. pose proof (size_endpoints_in e q Hq) as Q.
+             apply IH; [lia|exact (wfv_endpoints_members e Hv q Hq)|lia].
         * intros b gs. symmetry. apply guards_same; [exact (wf_obj_wfo p k fs Hw)|exact (norm_getf p k fs Hw)].
       + (* list *)
         destruct l as [|x [|y r]]; [discriminate Hw| |].
@@ -386,22 +579,22 @@ Section FixBytes.
   Notation rnds := (rounds jw_tables jr_tables layout_of registry load_switch activity_types actor_types link_types).
 
   (* encode, decode, encode: the second encoding is the first *)
-  Theorem one_round_bytes x : wf x = true -> ddepth x <= 64 ->
+  Theorem one_round_bytes x : wf x = true -> ddepth x <= 149 ->
     exists b, enc x = Some b /\ dec b = Some (Ok (nrm x)) /\ enc (nrm x) = Some b.
   Proof.
     intros Hw Hd.
-    destruct (json_roundtrip jw_tables jr_tables layout_of registry load_switch activity_types actor_types link_types
+    destruct (json_roundtrip_depth jw_tables jr_tables layout_of registry load_switch activity_types actor_types link_types
                 Htables x Hterms Hw Hd) as [b [E [_ D]]].
     exists b. split; [exact E|]. split; [exact D|].
     rewrite (marshal_norm jw_tables layout_of registry load_switch activity_types actor_types link_types Hlayout x Hw). exact E.
   Qed.
 
   (* any number of rounds, the first included: the same bytes, the normal form *)
-  Theorem rounds_all x : wf x = true -> ddepth x <= 64 ->
+  Theorem rounds_all x : wf x = true -> ddepth x <= 149 ->
     exists b, b <> [] /\ enc x = Some b /\ forall n, rnds n x = Some (b, nrm x).
   Proof.
     intros Hw Hd.
-    destruct (json_roundtrip jw_tables jr_tables layout_of registry load_switch activity_types actor_types link_types
+    destruct (json_roundtrip_depth jw_tables jr_tables layout_of registry load_switch activity_types actor_types link_types
                 Htables x Hterms Hw Hd) as [b [E [Hne D]]].
     assert (E2 : enc (nrm x) = Some b)
       by (rewrite (marshal_norm jw_tables layout_of registry load_switch activity_types actor_types link_types Hlayout x Hw); exact E).
